@@ -648,3 +648,57 @@ def distribution(cases, results):
             kk = 'op ' + o[0] + (' empty' if (o[0] == 'A' and o[1] == 0) else '') + ''.join(f' {a}' for a in sorted(_flags(o)) if _flags(o)[a] not in (0, None))
             d[kk] = d.get(kk, 0) + 1
     return d
+
+
+# ====================================================================================================================
+# Translator tie (appended; nothing above is changed).  On every run coq/gen/BufferStepGen.v is REGENERATED from the
+# source under test by translate/pybuffer2coq.py: one Gallina definition per method of SignalBuffer, statement by
+# statement.  coq/Buffer/ProofsTie.v proves these definitions equal to the hand-written model (theorems C14_source_* of
+# coq/Props/C14.v), so a change of the index arithmetic in buffer.py that the model does not have breaks those proofs
+# (reported by the driver as a broken tie), whether or not a generated history reaches it.
+import os as _os
+import vlib as _vlib
+from translate import pybuffer2coq as _pybuffer2coq
+
+GEN = 'gen/BufferStepGen.v'
+TRUSTED += [
+    'translate/pybuffer2coq.py (fail-closed `ast` translator SignalBuffer -> coq/gen/BufferStepGen.v; its tables pin: the '
+    'signatures of the translated methods; the float helpers time_to_samples / get_time_lb / get_time_ub / get_range as whole '
+    'texts, calls of which are read in sample units (time_to_samples(x) = x: the harness hands the model round(t*fs)); '
+    '`self._buffer_samples = int(np.ceil(fs * size))` as the abstract input buffer_samples of g_init; np.full / np.pad / the '
+    'ndim switches of __init__ and get_range_filled as their one-channel reading; the shape validation of append_data, '
+    'logging calls and `with self._lock:` dropped (locking: C15).  Self-test on every translation: 14 random buffers, every '
+    'translated method run on the REAL object (fs = 1) and the outcome - result, exception, all fields afterwards - emitted '
+    'as an Example that Coq checks by vm_compute against the generated definition)',
+    'coq/Buffer/TieLib.v: exceptions as values, NumPy slice assignment (length check, length-1 broadcast, overlap copied '
+    'first), np.full / np.pad refusing negative sizes; one channel as `list Z` - a multichannel buffer applies the same index '
+    'arithmetic to every row (the differential harness runs 1-3 channels)']
+
+
+def translate(repo):
+    """Regenerate coq/gen/BufferStepGen.v from the source under test.  Anything the translator cannot digest (or a real
+    method that fails in the self-test) is written as a generated file that does not compile, so that the driver reports
+    the C14_source_* proofs as broken (fail closed)."""
+    info = {'gen_files': [GEN], 'source': [_os.path.join(repo, 'psiaudio/buffer.py')], 'gap': None}
+    try:
+        text, tinfo = _pybuffer2coq.generate(repo)
+        info.update(tinfo)
+    except _vlib.MachineryError:
+        raise
+    except Exception as e:
+        info['gap'] = f'{type(e).__name__}: {e}'
+        msg = ''.join(ch if ch.isalnum() or ch in " _.,:;()[]{}=+-*/<>'`" else ' ' for ch in info['gap'])
+        msg = msg.replace('(*', '( *').replace('*)', '* )')[:400]
+        # deliberately ill-typed, so that the build fails and coqc's error message carries the reason
+        text = ('(* GENERATED by harness/C14.py translate(): translate/pybuffer2coq.py stopped on\n'
+                f'   {repo}/psiaudio/buffer.py - do not edit. *)\n'
+                'From Coq Require Import ZArith String.\n'
+                f'Definition translator_gap : Z :=\n  "{msg}"%string.\n')
+    with open(_os.path.join(_vlib.COQ, GEN), 'w') as f:      # always rewritten: always re-checked
+        f.write(text)
+    # the correspondence files only need the hand-written model; make sure it is built even if the tie breaks
+    for r in REQUIRES:
+        rc, out = _vlib.coq_build(r.replace('.', '/') + '.vo')
+        if rc != 0:
+            raise _vlib.MachineryError(f'{r} does not build:\n' + out[-3000:])
+    return info
